@@ -11,7 +11,7 @@ import (
 )
 
 var c03Forced = []string{"group.1col", "group.2col", "group.3col", "group.nullkey", "group.mixedkey", "having", "having.key", "where", "star", "agg.COUNT*", "agg.COUNT", "agg.SUM", "agg.MIN", "agg.MAX", "agg.AVG",
-	"agg.samefn-diffcol", "agg.samefn-samecol", "agg.nullable", "whole.where", "whole.nowhere", "whole.empty", "whole.union", "table.empty"}
+	"agg.samefn-diffcol", "agg.samefn-samecol", "agg.nullable", "whole.where", "whole.nowhere", "whole.empty", "whole.union", "whole.limit", "table.empty"}
 
 func init() {
 	fw.Register(&fw.Prop{
@@ -421,6 +421,15 @@ func c03Group(c *fw.Case) {
 			want = append(want, row)
 		}
 		nontrivial = len(want) >= 2
+	}
+	// a LIMIT that does not cut the result changes nothing: the one row of a
+	// whole-table aggregate is computed over every row that passed WHERE
+	if whole && !containsStr(feats, "whole.union") && (force == "whole.limit" || c.Chance(0.3)) {
+		sql += fmt.Sprintf(" LIMIT %d", gen.Pick(c.R, []int{1, 1, 2, 5, 100}))
+		if c.Chance(0.3) {
+			sql += " OFFSET 0"
+		}
+		feats = append(feats, "whole.limit")
 	}
 	c.Feature(feats...)
 	c.Sample(map[string]any{"sql": sql, "rows_in": len(t.Rows), "filtered": len(filtered), "expected": want})
